@@ -170,6 +170,8 @@ def instances(ctx, spec, profile):
         f.write("From Coq Require Import List NArith Bool.\n")
         f.write("From BioSeq Require Import %s.\n" % " ".join(spec.get("imports", ["Bits", "Codec", "Tables"])))
         f.write("From BioSeqGen Require Import Real_%s.\nImport ListNotations.\nOpen Scope N_scope.\n" % profile)
+        for l in spec.get("extra_imports", []):
+            f.write(l + "\n")
         for i, o in enumerate(obs):
             f.write("Definition ob_%d : bool := %s.\n" % (i, o["expr"]))
         f.write("Eval vm_compute in [%s].\n" % "; ".join("ob_%d" % i for i in range(len(obs))))
@@ -177,7 +179,7 @@ def instances(ctx, spec, profile):
             if o.get("witness"):
                 f.write("Eval vm_compute in (%s).\n" % o["witness"])
         for i, o in enumerate(obs):
-            f.write("Lemma inst_%d : ob_%d = true. Proof. vm_compute. reflexivity. Qed.\n" % (i, i))
+            f.write("Lemma inst_%d : %s = true. Proof. vm_compute. reflexivity. Qed.\n" % (i, o["expr"]))
             for j, thm in enumerate(o.get("lift", [])):
                 f.write("Definition lifted_%d_%d := %s.\n" % (i, j, thm.replace("@INST", "inst_%d" % i)))
     p = coqc(path)
